@@ -28,7 +28,8 @@ CONFIG = {
                   "stores: after any insert_all run, faulted anywhere, every index holds the same statements "
                   "(fast_insert_all_coherent), the primary index evolving as the one-list store of the count theorems "
                   "(fast_insert_sim), with a kernel-checked witness that a derive-indexes-afterwards bulk variant is "
-                  "incoherent after a fault. Tie to the text: tools/extractors/c15.py regenerates the normalised text of the 41 "
+                  "incoherent after a fault; GraphAsDataset: a named-graph quad is the sink fault, exactly the items before "
+                  "it are stored (gad_named_graph_is_sink_fault). Tie to the text: tools/extractors/c15.py regenerates the normalised text of the 41 "
                   "Rust function bodies the model mirrors and the list of overrides of provided stream methods; "
                   "transcribed_text_is_current / no_bulk_override are obligations on them. The theorems are about the Lean model; that the model is the Rust code "
                   "is checked differentially on every run (call log, result, error side and payload, counts, final "
@@ -60,7 +61,8 @@ CONFIG = {
                  "collectSet_spec", "serializeRio_spec",
                  "run_spec_generic", "family_is_generic", "fuel_suffices_iter", "into_iter_run_spec_any_state",
                  "fuel_suffices_into_iter", "fast_insert_coherent", "fast_insert_all_coherent", "fast_insert_sim",
-                 "bulk_insert_all_incoherent_witness", "transcribed_text_is_current", "no_bulk_override"],
+                 "bulk_insert_all_incoherent_witness", "transcribed_text_is_current", "no_bulk_override",
+                 "gad_named_graph_is_sink_fault"],
     "native_ok": [],
     "trivial_re": r"^log=_ ret=ok",
     "rule": "item sequences (len 0..20, values colliding mod the filter moduli) x well-typed adapter chains (depth 0..3 "
